@@ -83,6 +83,22 @@ def make_case(gen, rng):
             if m:
                 row[hi] = m["text"]
                 faults.append(dict(row=ri, col="HED", code=m["code"], kind=m["kind"]))
+    # a fault inside a sidecar entry: every row selecting that key carries it, in a column that is not the first one
+    cats = [c for c, k in b["kinds"].items() if k == "categorical" and c in cols]
+    if kind != "spreadsheet" and cats and not tables.refs_of(b) and rng.random() < 0.3:
+        c = rng.choice(cats)
+        key = rng.choice(list(b["sidecar"][c]["HED"]))
+        try:
+            items = gen.annotation(depth=2, temporal=False, size=rng.randrange(1, 3), reset=False)
+            m = annot.mutate(gen, items, rng.choice(CELL_FAULTS), rng)
+        except RuntimeError:
+            m = None
+        if m:
+            b["sidecar"][c]["HED"][key] = m["text"]
+            ci = cols.index(c)
+            for ri, row in enumerate(b["rows"]):
+                if row[ci] == key:
+                    faults.append(dict(row=ri, col=c, code=m["code"], kind=m["kind"]))
     if "onset" in cols and rng.random() < 0.25 and len(b["rows"]) >= 2:
         oi = cols.index("onset")
         k = rng.randrange(1, len(b["rows"]))
@@ -218,7 +234,7 @@ def check_case(case, rec):
         r = f["row"]
         if onsets is not None and onsets.count(onsets[r]) != 1:
             continue
-        if any(c != "HED" for c in all_cell_errs.get(r, {})) or sum(1 for g in case["faults"] if g["row"] == r) != 1:
+        if any(c != f["col"] for c in all_cell_errs.get(r, {})) or sum(1 for g in case["faults"] if g["row"] == r) != 1:
             continue
         rec.mon("fault-located")
         here = [i["code"] for i in issues if i.get("ec_row") == r + 2 and i["severity"] == 1]
